@@ -490,16 +490,18 @@ fn run_case(family: &str, size: usize, cascade: &str, order: &str, hash_seed: u6
                 check(&mut world, "invalidate-root-unchanged", &none, None, &mut problems);
             }
             "invalidate-root-changed" => {
-                *world.g.ext.entry(root).or_insert(0) += 1;
-                if gvd.jobs[root_j].kind != Kind::Always {
-                    // a non-Always root only notices when its file is gone
-                    for p in gvd.jobs[root_j].parts.iter() {
-                        world.disk.remove(p);
+                // only an Always root can change its output without anything else changing
+                if gvd.jobs[root_j].kind == Kind::Always {
+                    *world.g.ext.entry(root).or_insert(0) += 1;
+                    check(&mut world, "invalidate-root-changed", &none, None, &mut problems);
+                } else {
+                    // all other roots: every leaf-side output deleted at once (wide invalidation)
+                    let outs: Vec<String> = gvd.jobs.iter().filter(|j| j.kind == Kind::Output && j.downs.is_empty()).flat_map(|j| j.parts.clone()).collect();
+                    for p in outs {
+                        world.disk.remove(&p);
                     }
-                    // and then reports a different output: model by forgetting its history as well
-                    world.history.remove(&gvd.jobs[root_j].id);
+                    check(&mut world, "invalidate-all-leaves", &none, None, &mut problems);
                 }
-                check(&mut world, "invalidate-root-changed", &none, None, &mut problems);
             }
             "invalidate-leaf" => {
                 for p in gvd.jobs[leaf_j].parts.iter() {
